@@ -192,7 +192,9 @@ def check(case):
                     raise Violation("sample-annotator-not-from-ground-truth", f"sample {i} annotator {a}: durations/labels {sig} match no ground-truth annotator {gt_names}")
         sl = (preds.check_cover if mode == "soft" else preds.check_partition)(al, sper, f"chance")
         preds.check_reported_disorders(al, sl, spec, sper, "chance")
-        if i < 3 and mode != "fast" and gen.continuum_product(sc) <= 1300:
+        if mode == "soft" and type(al).__name__ != "SoftAlignment":
+            raise Violation("chance-alignment-wrong-kind", f"sample {i}: {type(al).__name__} in soft mode")
+        if (i < 3 or n <= i < n + 3) and mode != "fast" and gen.continuum_product(sc) <= 1300:
             sup, slo = _optimum(spec, sper, cover=(mode == "soft"))
             v = float(al.disorder)
             if v > sup + tolr * max(1, sup) or v < slo - tolr * max(1, slo):
@@ -263,6 +265,17 @@ def cases(tier):
                         sp[key] = rescale(sp[key])
                 return sp
             cs["dissim"] = rescale(cs["dissim"])
+        if draw(st.integers(0, 11)) == 0:
+            # perfectly regular identical annotators: every sampling deviation is 0, every sample replicates the reference
+            k = draw(st.integers(1, 3))
+            dur = draw(st.sampled_from([1.0, 2.5, 4.0]))
+            nn = draw(st.integers(2, 3))
+            nm = ["a", "b", "c"][:nn]
+            lab = gen.labels_for(cs["dissim"])[0]
+            cs["continuum"] = {"annotators": nm, "units": [[a, j * dur, (j + 1) * dur, lab] for a in nm for j in range(k)], "shape": "regular-identical"}
+            cs["ground_truth"] = None
+            cs.pop("prelude", None)
+            cs["precision"] = None
         if cs["mode"] == "fast" and draw(st.booleans()):
             # long sequential continuum: fast-gamma's estimated window is finite there
             spec = draw(gen.dissim_specs(kinds=("combined", "combined", "pos"), equal_delta_only=True))
